@@ -54,6 +54,15 @@ def tree_digest():
     return h.hexdigest()[:16]
 
 
+def harness_digest():
+    h = hashlib.sha256()
+    for p in sorted(glob.glob(os.path.join(VERIF, "sim", "*.py"))):
+        with open(p, "rb") as f:
+            h.update(f.read())
+    h.update(sys.version.encode())
+    return h.hexdigest()[:12]
+
+
 def hash_seed_list(seed, n):
     r = Rng(seed, "hashseeds")
     out = [0]
@@ -99,7 +108,10 @@ class Check:
         self.t0 = time.monotonic()
         self.farm = farm_mod.Farm(repo_src=REPO_SRC)
         self.oneshot = farm_mod.OneShot(repo_src=REPO_SRC)
-        self.refs = farm_mod.RefStore(self.farm, self.oneshot)
+        disk = None
+        if os.environ.get("VERIF_REFCACHE", "1") != "0":
+            disk = os.path.join(VERIF, "out", "refcache", "%s-%s.json" % (tree_digest(), harness_digest()))
+        self.refs = farm_mod.RefStore(self.farm, self.oneshot, disk=disk)
         self.corp = gen.Corpus(REPO)
         self.hash_seeds = hash_seed_list(seed, self.cfg["hash_seeds"])
         self.deadline = self.t0 + self.cfg["budget_s"] * float(os.environ.get("VERIF_BUDGET_SCALE", "1"))
@@ -204,6 +216,7 @@ class Check:
         for m in self.conf.get("mismatch_details", []):
             harness.append(({"label": "stub-vs-real " + m.get("part", "")}, "the simulator's stub disagrees with the real process: %r" % (m,)))
         out = self.report(specs, executed, violations, harness, det)
+        self.refs.save()
         self.oneshot.close()
         return out
 
@@ -407,6 +420,7 @@ class Check:
             "probes": dict(sorted(probes.items())),
             "probes_at_zero": [p for p in EXPECTED_PROBES[prop] if not probes.get(p) and not faults.get(p)],
             "references_computed": self.refs.computed,
+            "references_from_disk_memo": self.refs.from_disk,
             "zygote_boots": self.farm.zygote_boots,
             "determinism_sample": det,
             "stub_validation": getattr(self, "conf", {"ran": False}),
